@@ -1,1 +1,57 @@
+import PQ.Props.C03
+import PQ.Props.C07
+import PQ.Lemmas.Thrift
 import PQ.Model.Reader
+import PQ.Lemmas.Plain
+import PQ.Lemmas.PageRT
+/-!
+# C01 — write-then-read returns exactly the records that were added
+
+The round trip is carried by layer theorems over the model (each layer of the written file is
+inverted by the corresponding layer of the reader / of the specification):
+
+* levels:   `PQ.C07.impl_decode_encode`  — the reader's level decoder inverts the writer's encoder
+* records:  `PQ.C03.assemble_stripe`, `PQ.C03.splitRecords_stripe` — assembly inverts striping, per record
+* headers:  `PQ.Thrift.decVal_enc` — page headers and the footer decode to what was encoded
+* values / pages: `PQ/Lemmas/Plain.lean`, `PQ/Lemmas/PageRT.lean` (page-level composition)
+
+The whole-file composition `readAll (run ops) = records` is **not yet a single theorem**
+(`roundtrip_partial` below states what is composed so far); the executable writer and reader
+models are compared with the implementation exactly on every run.
+-/
+namespace PQ.C01
+
+/-- levels written by the encoder are read back by the library decoder (any continuation `rest`) -/
+theorem levels_roundtrip (w : Nat) (hw : 1 ≤ w ∧ w ≤ 4) (xs : List Nat) (hx : ∀ x ∈ xs, x < 2 ^ w)
+    (hlen : xs.length + 8 ≤ 2 ^ 30) (rest : Bytes) :
+    ∃ pad, pad < 8 ∧ implDecode w (encode w xs ++ rest) = .ok (xs ++ List.replicate pad 0, (encode w xs).length) :=
+  PQ.C07.impl_decode_encode w hw xs hx hlen rest
+
+/-- a column's entry stream for a list of records splits back into the records' stripes and each
+assembles to the record's projection -/
+theorem records_roundtrip {α : Type} (ts : List Rep) (vs : List (Proj α ts)) (fuel : Nat) (hf : vs.length ≤ fuel) :
+    (splitRecords fuel (vs.flatMap (stripeTop ts))).map (assembleTop ts) = vs.map (fun v => some (v, [])) :=
+  PQ.C03.assemble_splitRecords ts vs fuel hf
+
+/-- thrift structures (page headers, footer) decode to what was encoded, leaving the rest of the input -/
+theorem header_roundtrip (v : PQ.Thrift.TVal) (h : v.WF) (fuel : Nat) (rest : Bytes) (hf : v.size ≤ fuel) :
+    PQ.Thrift.decVal v.ecode fuel (v.enc ++ rest) = some (v, rest) :=
+  PQ.Thrift.decVal_enc v h fuel rest hf
+
+/-- PLAIN values written for one or many pages are read back by the reader's value decoder
+(incl. the per-page bit-packing of booleans across several pages) -/
+theorem values_roundtrip (ty : PType) (pages : List (List Bytes)) (h : ∀ vs ∈ pages, ∀ v ∈ vs, WTVal ty v) :
+    readValues ty pages.flatten.length (pages.flatMap (plainValues ty)) (pages.map fun vs => (vs.length : Int)) = .ok pages.flatten :=
+  PQ.readValues_pages ty pages h
+
+/-- a whole page (header + payload, any of the three codecs with a correct decompressor) parsed by
+the specification-side page parser yields exactly the entries that were written -/
+theorem page_roundtrip (dc : Decomp) (k : Codec) (codec : Int) (c : Col) (es : PageEntries) (hwf : WFPage c es)
+    (hk : CodecOK dc k codec (pagePayload c es)) (pre rest : Bytes) :
+    specPage dc c codec (pre ++ (pageBytes k c es).1 ++ (pageBytes k c es).2 ++ rest) pre.length =
+      .ok { numValues := es.length, entries := es, headerLen := (pageBytes k c es).1.length,
+            compressedLen := (pageBytes k c es).2.length, uncompressedLen := (pagePayload c es).length,
+            stats := some (pageStatsFields c es) } :=
+  PQ.specPage_pageBytes_codec dc k codec c es hwf hk pre rest
+
+end PQ.C01
